@@ -166,14 +166,15 @@ theorem sim_ite {n : Nat} (ihE : ExprSim S n) (cnd t f : Expr) : ExprCase S (n +
       | _ => first | (rw [hrf] at ihf; exact Outcome.of_steps pre ihf) | trivial
   | _ => first | (rw [hrc] at ihc; exact ihc) | trivial
 
-theorem sim_builtin {n : Nat} (ihA : ArgsSim S n) (f : Nat) (args : List Expr) : ExprCase S (n + 1) (.call f args) := by
+theorem sim_builtin {n : Nat} (ihA : ArgsSim S n) (f : Nat) (args : List Expr) (hb : isBuiltin f = true) :
+    ExprCase S (n + 1) (.call f args) := by
   intro env log wp c junk base fr K hsup hcode hdefs
-  simp only [supE, Bool.and_eq_true] at hsup
-  obtain ⟨i, hi⟩ := isBuiltin_iff.mp hsup.1
+  simp only [supE] at hsup
+  obtain ⟨i, hi⟩ := isBuiltin_iff.mp hb
   simp only [compileExpr, hi] at hdefs hcode
   simp only [codeAt_append, codeAt_single, builtin_res hi] at hcode
-  have iha := ihA args env log wp c junk base fr K hsup.2 hcode.1 hdefs
-  simp only [evalExpr, compileExpr, hi, hsup.1, if_true]
+  have iha := ihA args env log wp c junk base fr K hsup hcode.1 hdefs
+  simp only [evalExpr, compileExpr, hi, hb, if_true]
   cases hra : evalArgs S.m.p n env log args with
   | val vs l =>
     rw [hra] at iha; simp only [Outcome] at iha
